@@ -5,6 +5,15 @@ func_index_space, elem_init_correct, mangle_injective_on_distinct_imports_partia
 Tie: emit-tokens on the wasmgen profile `calls` (0-4 imports, 1-12 functions, up to 8 parameters of all four types,
 mutual recursion behind a depth guard, element segments with constant and imported-global offsets into defined and
 imported tables, re-exported imports) and `init`, in plain/-p/-m/-p -m rendering.
+Module-level text and names: (a) the e2e part also runs under the output options -p / -m / -p -m (table dump vs element segments,
+results, host trace vs V8); (b) `inittables-text` (tools/checks/inittables.py): the body of <module>InitTables of the real w2c2 in all four
+option sets = Model.InitTables.render over Gen/InitTables (regenerated from wasmCWriteInitTables with BOTH branches of every `if (pretty)`);
+Props/C04Tables.lean: -p prints the same tokens, one entry = one store into offset + POSITION of the LISTED function, a segment's text
+denotes Model.writeSeg; (c) import names: Gen/Mangle (the escaping rule regenerated from both copies in c.c) + Props/C04Mangle.lean
+(escape_injective, mangle_injective for module names without "__" / trailing "_", export_symbol_injective, Model.Render's hand-written
+escapeName = the regenerated rule) + directed corpus tools/corpus/C04 (escape look-alikes "a.b"/"aX2Eb", "X"/"X58", empty names, same field
+in different modules, struct-field imports).  RECORDED FINDING (known_findings.txt, key import-mangling-underscore-at-module-field-boundary):
+("a_","b") and ("a","_b") are mangled to one identifier; every module hit by it is reported under that one key, any other collision is a violation.
 Search: e2e with host imports that log (callee index, instance pointer identity, argument bit patterns in order) and
 return a hash of their arguments, so a permuted/dropped argument or a wrong callee changes results and the trace;
 table 0 is dumped as function identities and compared with the element segments applied in order.
